@@ -16,7 +16,7 @@ use std::path::{Path, PathBuf};
 
 pub const LEVEL: &str = "exploration";
 pub const EXHAUSTIVE: bool = false;
-pub const RULE: &str = "generated: structured call sequences (proptest) of 5..60 ops over all 33 exported functions - up to 3 configs built through every setter incl. valid and invalid layout / data paths, up to 3 contexts, up to 16 live suggestions and 32 live strings; ops: key (any published code, modifier, selection), backspace, commit(i<len), finish, update-engine while idle, ongoing, complete read-out of a suggestion through every getter, re-read of an older suggestion, string_free / string_free(NULL) / suggestion_free / context_free / config_free in any order - encoded in the target's byte code and executed once each by the AddressSanitizer + LeakSanitizer build (1 sequence in 16 may load the bundled dictionary in some of its configs); thorough adds a coverage-guided libFuzzer campaign (16 jobs) from that corpus. Oracle (in-target): ASan / LSan reports, every returned char* is NUL-terminated valid UTF-8 equal to what the Rust API reports for the same object and index, a suggestion's strings are unchanged when re-read after later calls on its context and after the context is freed, string_free(NULL) is a no-op. Non-trivial: the sequence leaves >= 1 suggestion to be re-read after its context was freed, or re-reads an older suggestion after a later call; distinct by byte code. The byte code has a burst op (the same key 2..97 times, every suggestion on the way read out completely and freed, the last one kept) so that candidates and pre-edit texts of several hundred bytes occur.";
+pub const RULE: &str = "generated: structured call sequences (proptest) of 5..60 ops over all 33 exported functions - up to 3 configs built through every setter incl. valid and invalid layout / data paths, up to 3 contexts, up to 16 live suggestions and 32 live strings; ops: key (any published code, modifier, selection), backspace, commit(i<len), finish, update-engine while idle, ongoing, complete read-out of a suggestion through every getter, re-read of an older suggestion, string_free / string_free(NULL) / suggestion_free / context_free / config_free in any order - encoded in the target's byte code and executed once each by the AddressSanitizer + LeakSanitizer build (1 sequence in 16 may load the bundled dictionary in some of its configs); thorough adds a coverage-guided libFuzzer campaign (16 jobs) from that corpus. Oracle (in-target): ASan / LSan reports, every returned char* is NUL-terminated valid UTF-8 equal to what the Rust API reports for the same object and index, a suggestion's strings are unchanged when re-read after later calls on its context and after the context is freed, string_free(NULL) is a no-op. Non-trivial: the sequence leaves >= 1 suggestion to be re-read after its context was freed, or re-reads an older suggestion after a later call; distinct by byte code. The byte code has a burst op (the same key 2..97 times, every suggestion on the way read out completely and freed, the last one kept) so that candidates and pre-edit texts of several hundred bytes occur. A unit that exceeds the per-unit time limit in the run and again alone, with nothing else reported, makes the run inconclusive (exit 2), never a violation.";
 pub const ASSUMPTIONS: &[&str] = &[
     "AddressSanitizer / LeakSanitizer detect invalid accesses and leaks; a Rust panic inside an extern \"C\" function aborts and is reported by libFuzzer",
     "the decoder never violates the caller's contract (double free, dangling handle, index >= length)",
@@ -130,12 +130,17 @@ pub fn sequence(with_data: bool) -> impl Strategy<Value = ([u8; 4], Vec<(u8, Op)
 }
 
 fn minimise(artifact: &Path) -> PathBuf {
+    // a time-limit report is not minimised: every attempt would take the whole limit again
+    if artifact.file_name().map(|n| n.to_string_lossy().contains("-timeout-")).unwrap_or(false) {
+        return artifact.to_path_buf();
+    }
     let out = PathBuf::from(format!("{}.min", artifact.display()));
     let _ = std::process::Command::new(ffi_bin())
         .arg(artifact)
         .arg("-minimize_crash=1")
         .arg("-runs=400")
         .arg("-max_total_time=25")
+        .arg("-timeout=60")
         .arg(format!("-exact_artifact_path={}", out.display()))
         .env("VERIF_FUZZ_XDG", scratch_root().join("fz-min"))
         .env("VERIF_FUZZ_DATA", "allow")
@@ -296,8 +301,9 @@ pub fn run(run: &Run) {
     if committed.is_dir() {
         all_dirs.push((committed.to_path_buf(), true));
     }
-    let prefix = "/verif/replays/C19-";
-    let _ = std::fs::create_dir_all("/verif/replays");
+    let prefix_owned = format!("{}/replays/C19-", crate::runner::out_root());
+    let prefix = prefix_owned.as_str();
+    let _ = std::fs::create_dir_all(format!("{}/replays", crate::runner::out_root()));
     let before: std::collections::HashSet<PathBuf> = fuzz::run_dirs_once(ffi_bin(), &[], prefix, &root).artifacts.into_iter().collect();
     let out = fuzz::run_dirs_once(ffi_bin(), &all_dirs, prefix, &root);
     run.parts.lock().unwrap().push(json!({"part": "generated sequences executed once under ASan+LSan", "files": out.executed, "ok": out.ok}));
@@ -311,7 +317,14 @@ pub fn run(run: &Run) {
         if out.oom > 0 {
             run.health.lock().unwrap().push(format!("{what}: {} out-of-memory report(s) - inconclusive", out.oom));
         }
-        if !out.ok || !new.is_empty() {
+        // a unit that exceeded the time limit during the run AND again when run alone, with nothing else reported: the
+        // machine is overloaded or the unit is slow - inconclusive (exit 2), never a violation
+        let only_time_limits = !new.is_empty()
+            && new.iter().all(|a| a.file_name().map(|n| n.to_string_lossy().contains("-timeout-")).unwrap_or(false))
+            && (out.ok || out.report.lines().all(|l| l.trim().is_empty() || l.contains("timeout") || l.contains("ALARM")));
+        if only_time_limits {
+            run.health.lock().unwrap().push(format!("{what}: {} unit(s) exceeded the per-unit time limit twice (in the run and alone) - inconclusive: {:?}", new.len(), new));
+        } else if !out.ok || !new.is_empty() {
             let art = new.first().map(|a| minimise(a));
             let mut f = Failure::new("sanitizer-or-oracle-report", format!("{what}: {}", out.report.lines().take(8).collect::<Vec<_>>().join(" | ")), json!({}));
             f.artifact = art.or_else(|| Some(PathBuf::from("/verif/replays/C19-no-artifact")));
